@@ -151,6 +151,13 @@ TReply ==
   /\ dec' = IF Line.op \in Events /\ dec[Line.op] > 0 THEN [dec EXCEPT ![Line.op] = @ - 1] ELSE dec
   /\ UNCHANGED <<scn, mst, holder, found, legal, sec, effects, ndrift, pend, apisec, secfail, owed>>
 
+\* the answer to a destroy request for an environment that exists: the environment is gone (its last reported state is DONE) -
+\* also when the STOP_ACTIVITY or RESET that a polite destroy tries first has failed (the teardown is then forced)
+TDestroyReply ==
+  /\ Line.ev = "ApiReply" /\ Line.call = "destroy" /\ IsEnv
+  /\ nviol' = nviol + Soft("DestroyEndsDone", (Line.code # "NotFound" /\ ~Line.timeout) => mst = "DONE", <<Line.code, mst>>)
+  /\ UNCHANGED <<scn, mst, holder, found, legal, sec, effects, ndrift, pend, dec, apisec, secfail, owed>>
+
 TApi ==
   /\ Line.ev = "Api" /\ Line.call = "control" /\ IsEnv
   /\ pend' = IF Line.op \in Events THEN [pend EXCEPT ![Line.op] = @ + 1] ELSE pend
@@ -167,6 +174,7 @@ TOther ==
   /\ ~Point("env.lock.acquired") /\ ~Point("env.lock.release") /\ ~Point("env.setstate") /\ ~Point("api.force.done")
   /\ ~(Line.ev = "EnvEv" /\ IsEnv) /\ ~(Line.ev \in {"HookStart", "MMessage"} /\ IsEnv) /\ ~Point("env.teardown.phase")
   /\ ~(Line.ev = "ApiReply" /\ Line.call = "control" /\ IsEnv) /\ ~(Line.ev = "Api" /\ Line.call = "control" /\ IsEnv)
+  /\ ~(Line.ev = "ApiReply" /\ Line.call = "destroy" /\ IsEnv)
   /\ UNCHANGED <<scn, mst, holder, found, legal, sec, effects, nviol, ndrift, pend, dec, apisec, secfail, owed>>
 
 TraceInit ==
@@ -183,7 +191,7 @@ TraceInit ==
 
 TraceNext ==
   /\ l <= Len(Trace)
-  /\ (TReset \/ TAcquire \/ TRelease \/ TSetState \/ TForce \/ TEnvEv \/ TEffect \/ TReply \/ TApi \/ TEnd \/ TOther)
+  /\ (TReset \/ TAcquire \/ TRelease \/ TSetState \/ TForce \/ TEnvEv \/ TEffect \/ TReply \/ TDestroyReply \/ TApi \/ TEnd \/ TOther)
   /\ l' = l + 1
   /\ UNCHANGED vars
 
